@@ -3,7 +3,9 @@
 // reported by any rule.
 #include <osmium/osm/location.hpp>
 
+#include <algorithm>
 #include <array>
+#include <iterator>
 #include <cctype>
 #include <cstdint>
 #include <cstdlib>
@@ -364,6 +366,64 @@ inline std::time_t ok_calendar(int mon, int day, int hour) {
     return timegm(&tm);
 }
 
+template <typename T>
+inline T ok_put(T out, int v) {
+    *out++ = static_cast<char>('0' + v % 10);
+    return out;
+}
+
+template <typename T>
+inline T bad_o1_result_dropped(T out, int a) {
+    static const char text[] = "-214";
+    if (a < 0) {
+        std::copy_n(text, sizeof(text) - 1, out);   // returns the advanced iterator ...
+        return out;                                  // ... but the stale copy is returned
+    }
+    return ok_put(out, a);
+}
+
+template <typename T>
+inline T bad_o1_sibling_result_dropped(T out, int a, int b) {
+    ok_put(out, a);                                  // position lost
+    *out++ = ',';
+    return ok_put(out, b);
+}
+
+template <typename T>
+inline T ok_threaded(T out, int a, int b) {
+    static const char text[] = "-214";
+    if (a < 0) {
+        return std::copy_n(text, sizeof(text) - 1, out);
+    }
+    out = ok_put(out, a);
+    *out++ = ',';
+    T next = ok_put(out, b);
+    return next;
+}
+
+inline void bad_w1_gmtime(std::time_t t, std::tm& tm) {
+    const std::tm* r = std::gmtime(&t);              // static buffer shared by all threads
+    tm = *r;
+}
+
+inline void ok_gmtime_r(std::time_t t, std::tm& tm) {
+    gmtime_r(&t, &tm);
+}
+
+inline std::time_t bad_t4_no_leap_second(int sec) {
+    std::tm tm;
+    tm.tm_year = 100;
+    tm.tm_mon = 0;
+    tm.tm_mday = 1;
+    tm.tm_hour = 0;
+    tm.tm_min = 0;
+    tm.tm_sec = sec;
+    if (tm.tm_sec >= 0 && tm.tm_sec <= 59) {         // 23:59:60 is rejected
+        return timegm(&tm);
+    }
+    throw std::invalid_argument{"sec"};
+}
+
 inline uint32_t ok_strict(const char* s) {
     if (*s != '\0' && *s != '-' && !std::isspace(*s)) {
         char* end = nullptr;
@@ -454,6 +514,15 @@ inline void use_all(const char* s, const char** p) {
     (void)bad_s3_empty_accepted(s);
     (void)bad_s4_space_accepted(s);
     (void)ok_strict(s);
+    char buf[64];
+    (void)bad_o1_result_dropped(buf, 1);
+    (void)bad_o1_sibling_result_dropped(buf, 1, 2);
+    (void)ok_threaded(buf, 1, 2);
+    (void)ok_threaded(std::back_inserter(*new std::string), 1, 2);
+    std::tm tmv;
+    bad_w1_gmtime(0, tmv);
+    ok_gmtime_r(0, tmv);
+    (void)bad_t4_no_leap_second(1);
     (void)bad_a3_bound_too_small(1, 2);
     (void)ok_early_exit_rejected(1, 2);
     (void)bad_b1_shared_budget(s);
